@@ -361,4 +361,8 @@ add("C16", "L-BFGS history reset only at construction", "nifty/cl/minimization/d
 add("C13", "per-key device dict leaves the lookup table unbound", "nifty/cl/multi_field.py", "            _device_id = defaultdict(lambda: device_id)\n        else:\n            _device_id = device_id\n", "            _device_id = defaultdict(lambda: device_id)\n", "R13.11")
 add("C34", "classic prior term from the prior energy", "nifty/cl/evidence_lower_bound.py", "        prior_mean_sq = float(np.real(samples.mean.s_vdot(samples.mean)))", "        prior_mean_sq = float(np.real(hamiltonian.prior_energy(samples.mean).asnumpy()))", "R34.8")
 add("C34", "empirical mean preferred over the stored position", "nifty/re/evidence_lower_bound.py", "        if samples.pos is not None:\n            mean = samples.pos\n        elif len(samples) > 0:\n            mean = tree_map(lambda x: jnp.mean(x, axis=0), samples.samples)\n", "        if len(samples) > 0:\n            mean = tree_map(lambda x: jnp.mean(x, axis=0), samples.samples)\n        elif samples.pos is not None:\n            mean = samples.pos\n", "R34.8")
+add("C30", "log1p spelled out in the JAX moment matching", "nifty/re/num/stats_distributions.py", "    logstd = sqrt(log1p((std / mean) ** 2))", "    logstd = sqrt(log(1.0 + (std / mean) ** 2))", "R30.5")
+add("C30", "length-one arrays no longer fill", "nifty/cl/utilities.py", "    if x.shape in [(), (1, )]:", "    if x.ndim == 0:", "R30.6")
+add("C30", "uniform inverse clamps its argument", "nifty/cl/library/special_distributions.py", "        res = norm._ppf((field.val - self._loc) / self._scale)", "        res = norm._ppf(np.clip((field.val - self._loc) / self._scale, 1e-10, 1 - 1e-10))", "R30.7")
+add("C30", "shift inside the log-space table", "nifty/re/num/stats_distributions.py", "        s2i = lambda x: invgamma.ppf(norm._cdf(x), a=a, scale=scale)\n", "        s2i = lambda x: invgamma.ppf(norm._cdf(x), a=a, loc=loc, scale=scale)\n", "R30.8")
 VARIANTS = V
